@@ -69,6 +69,7 @@ func c13(c *Ctx) {
 	c.partStartsAtScanStart()
 	c.headerEndsAtFirstEmptyLine()
 	c.emptyPartsAreParts()
+	c.unconditionalCopiesAreNonFields()
 	c.sectionWindow("R13.5")
 	P, R := c.P, c.R
 	c.singleIDHeader("R13.4")
@@ -933,4 +934,93 @@ func (c *Ctx) emptyPartsAreParts() {
 		}
 	}
 	R.Min("R13.9", "tests on the scanned part in ScanAll", n, 1)
+}
+
+// unconditionalCopiesAreNonFields (R13.10): only something that is not a header field is copied without being looked up.
+func (c *Ctx) unconditionalCopiesAreNonFields() {
+	P, R := c.P, c.R
+	R.Explain("R13.10", "no loss or duplication between HEADER.FIELDS and HEADER.FIELDS.NOT: in rfc822.Header.Fields / FieldsNot an entry whose bytes are appended without consulting the set of requested names (not on an edge of the map lookup) is one that its own content shows not to be a field - the append is dominated by a test on the entry's bytes (getAll) or on hasKey.  Selecting it by position (`e == h.lastEntry`) copies a real field into both answers when the header has no delimiting blank line.")
+	n := 0
+	seenFn := map[*ssa.Function]bool{}
+	var units []*ssa.Function
+	for _, name := range []string{"rfc822.(*Header).Fields", "rfc822.(*Header).FieldsNot"} {
+		top := c.fn("R13.10", name)
+		if top == nil {
+			continue
+		}
+		for _, g := range c.withPackageHelpers(top, "rfc822", 1) {
+			if !seenFn[g] {
+				seenFn[g] = true
+				units = append(units, g)
+			}
+		}
+	}
+	for _, f := range units {
+		// map lookups (commaok) and their branches
+		lookupIfs := map[*ssa.BasicBlock]bool{}
+		for _, b := range f.Blocks {
+			iff := engine.IfOf(b)
+			if iff == nil {
+				continue
+			}
+			cond, _ := engine.StripNot(iff.Cond)
+			if ex, ok := cond.(*ssa.Extract); ok {
+				if lk, ok := ex.Tuple.(*ssa.Lookup); ok && lk.CommaOk {
+					lookupIfs[b] = true
+				}
+			}
+		}
+		contentDep := func(cond ssa.Value) bool {
+			return engine.AnyBackward(cond, engine.FlowOpts{Calls: func(cl *ssa.Call) []ssa.Value { return cl.Call.Args }}, func(x ssa.Value) bool {
+				if bo, ok := x.(*ssa.BinOp); ok {
+					for _, op := range []ssa.Value{bo.X, bo.Y} {
+						if engine.AnyBackward(op, engine.FlowOpts{Calls: func(cl *ssa.Call) []ssa.Value { return cl.Call.Args }}, func(y ssa.Value) bool {
+							call, ok := y.(*ssa.Call)
+							return ok && call.Call.StaticCallee() != nil && (engine.BaseName(call.Call.StaticCallee()) == "getAll" || engine.BaseName(call.Call.StaticCallee()) == "hasKey")
+						}) {
+							return true
+						}
+					}
+				}
+				call, ok := x.(*ssa.Call)
+				return ok && call.Call.StaticCallee() != nil && (engine.BaseName(call.Call.StaticCallee()) == "getAll" || engine.BaseName(call.Call.StaticCallee()) == "hasKey")
+			})
+		}
+		for _, cs := range engine.Calls(f) {
+			v, isVal := cs.Instr.(ssa.Value)
+			if !isVal {
+				continue
+			}
+			app, ok := engine.IsBuiltinCall(v, "append")
+			if !ok || len(app.Call.Args) != 2 {
+				continue
+			}
+			src, ok := app.Call.Args[1].(*ssa.Call)
+			if !ok || src.Call.StaticCallee() == nil || engine.BaseName(src.Call.StaticCallee()) != "getAll" {
+				continue
+			}
+			viaLookup := false
+			for lb := range lookupIfs {
+				if engine.EdgeDominates(lb, 0, app.Block()) || engine.EdgeDominates(lb, 1, app.Block()) {
+					viaLookup = true
+				}
+			}
+			if viaLookup {
+				continue
+			}
+			n++
+			ok2 := false
+			for _, b := range f.Blocks {
+				iff := engine.IfOf(b)
+				if iff == nil || lookupIfs[b] {
+					continue
+				}
+				if (engine.EdgeDominates(b, 0, app.Block()) || engine.EdgeDominates(b, 1, app.Block())) && contentDep(iff.Cond) {
+					ok2 = true
+				}
+			}
+			R.Check(ok2, "R13.10", c.name(f)+"|copy without lookup", P.Pos(app.Pos()), "guarded by a test on the entry's own bytes / key", "an entry is copied without looking its name up and without a test on its content: a real header field can end up in both HEADER.FIELDS and HEADER.FIELDS.NOT (or in neither)")
+		}
+	}
+	R.Min("R13.10", "copies made without the name lookup", n, 1)
 }
